@@ -440,6 +440,7 @@ pub fn def(tier: Tier) -> CheckDef {
         ],
         idle_limit_s: 600,
         needs_cli: false,
+        fuzz: None,
         parts: vec![
             Part {
                 name: "regressions",
@@ -510,6 +511,6 @@ fn replay_text(ctx: &Ctx, inp: &ReplayInput) -> Outcome {
             let toks = lex_simple(text);
             with_grammar(|g| check_tokens(g, &toks).map(|_| ()))
         }
-        ReplayInput::Choices(_) => Err(Failure::new("this part replays from text", "")),
+        _ => Err(Failure::new("this part replays from text", "")),
     }
 }
